@@ -8,6 +8,7 @@
 //! hand-written remainder (generic types without an alias, inherent methods,
 //! free functions).  The analysis cross-checks that no public function or cipher
 //! type of /repo is left unrooted.
+#![no_std]
 #![allow(unused, non_snake_case, clippy::all)]
 
 use cipher::inout::{InOut, InOutBuf};
